@@ -47,14 +47,16 @@ def run_case(case):
     tag = 'ntheta=%d nz=%d theta-spline=%s iota=%g' % (nq, nz, case['space'], iota)
     c = Constants()
     c.iotaVal = iota
-    R0 = c.R0
     tp = 2 * math.pi
+    dz = 0.5
+    # a torus whose circumference is the z period: the field line turns by 2*pi*iota/nz per cell
+    c.R0 = nz * dz / tp
+    R0 = c.R0
     bth = ops.mkspace(nq, 0.0, tp, deg, True, kind == 'cu', warp)
     S = refspline.RefSpace(bth)
     cond = S.cond_inf()
-    dz = 0.5
     z = np.arange(nz) * dz
-    rgrid = np.array([0.1, 5.0, 14.5])
+    rgrid = np.array([0.0, 0.25, 0.6])
     eta = [rgrid, np.asarray(bth.greville, dtype=float), z, np.array(VS)]
     lay = Layout('flux_surface', [1, 1], [0, 3, 1, 2], eta, [0, 0])
     q = eta[1]
